@@ -17,25 +17,25 @@ package rotation
 //@ func rotation.decideWhatToMake
 //@   let t = now(0)
 //@   nopanic[C08]
-//@   ensures[C08,C09 shape] (both(ret) && ret1 == nil) || (len(ret) == 0 && ret1 == nil)
+//@   ensures[C08,C09,* shape] (both(ret) && ret1 == nil) || (len(ret) == 0 && ret1 == nil)
 //@   |   || (onlyNext(ret) && in != nil && ret1 != nil && (ret1 == in.Next || ret1 == in.Current))
-//@   ensures[C08,C09 emptyonly] len(ret) == 0 ==> in != nil && in.Current != nil && in.Next != nil
+//@   ensures[C08,C09,* emptyonly] len(ret) == 0 ==> in != nil && in.Current != nil && in.Next != nil
 //@   |   && tsTime(in.Current.NotBefore) <= t && t <= tsTime(in.Current.NotAfter) && tsTime(in.Next.NotBefore) > t && tsTime(in.Next.NotAfter) >= t
-//@   ensures[C08,C09 keepcur] onlyNext(ret) && ret1 == in.Current && in.Current != in.Next ==>
+//@   ensures[C08,C09,* keepcur] onlyNext(ret) && ret1 == in.Current && in.Current != in.Next ==>
 //@   |   tsTime(in.Current.NotBefore) <= t && t <= tsTime(in.Current.NotAfter) && tsTime(in.Next.NotAfter) < t
-//@   ensures[C08,C09 promoted] onlyNext(ret) && ret1 == in.Next && in.Current != in.Next ==>
+//@   ensures[C08,C09,* promoted] onlyNext(ret) && ret1 == in.Next && in.Current != in.Next ==>
 //@   |   in.Current != nil && tsTime(in.Current.NotBefore) <= t && tsTime(in.Next.NotBefore) <= t && t <= tsTime(in.Next.NotAfter)
-//@   ensures[C08,C09 missing] in == nil || in.Current == nil || in.Next == nil ==> both(ret)
-//@   ensures[C08,C09 early] in != nil && in.Current != nil && in.Next != nil && tsTime(in.Current.NotBefore) > t ==> both(ret)
-//@   ensures[C08,C09 promoteX] in != nil && in.Current != nil && in.Next != nil && tsTime(in.Current.NotBefore) <= t && tsTime(in.Current.NotAfter) < t
+//@   ensures[C08,C09,* missing] in == nil || in.Current == nil || in.Next == nil ==> both(ret)
+//@   ensures[C08,C09,* early] in != nil && in.Current != nil && in.Next != nil && tsTime(in.Current.NotBefore) > t ==> both(ret)
+//@   ensures[C08,C09,* promoteX] in != nil && in.Current != nil && in.Next != nil && tsTime(in.Current.NotBefore) <= t && tsTime(in.Current.NotAfter) < t
 //@   |   && tsTime(in.Next.NotBefore) < t && t < tsTime(in.Next.NotAfter) ==> onlyNext(ret) && ret1 == in.Next
-//@   ensures[C08,C09 reset] in != nil && in.Current != nil && in.Next != nil && tsTime(in.Current.NotBefore) <= t && tsTime(in.Current.NotAfter) < t
+//@   ensures[C08,C09,* reset] in != nil && in.Current != nil && in.Next != nil && tsTime(in.Current.NotBefore) <= t && tsTime(in.Current.NotAfter) < t
 //@   |   && (tsTime(in.Next.NotBefore) > t || tsTime(in.Next.NotAfter) < t) ==> both(ret)
-//@   ensures[C08,C09 remint] in != nil && in.Current != nil && in.Next != nil && tsTime(in.Current.NotBefore) <= t && t <= tsTime(in.Current.NotAfter)
+//@   ensures[C08,C09,* remint] in != nil && in.Current != nil && in.Next != nil && tsTime(in.Current.NotBefore) <= t && t <= tsTime(in.Current.NotAfter)
 //@   |   && tsTime(in.Next.NotAfter) < t ==> onlyNext(ret) && ret1 == in.Current
-//@   ensures[C08,C09 keep] in != nil && in.Current != nil && in.Next != nil && tsTime(in.Current.NotBefore) <= t && t <= tsTime(in.Current.NotAfter)
+//@   ensures[C08,C09,* keep] in != nil && in.Current != nil && in.Next != nil && tsTime(in.Current.NotBefore) <= t && t <= tsTime(in.Current.NotAfter)
 //@   |   && tsTime(in.Next.NotAfter) > t && tsTime(in.Next.NotBefore) > t ==> len(ret) == 0
-//@   ensures[C08,C09 promote] in != nil && in.Current != nil && in.Next != nil && tsTime(in.Current.NotBefore) <= t && t <= tsTime(in.Current.NotAfter)
+//@   ensures[C08,C09,* promote] in != nil && in.Current != nil && in.Next != nil && tsTime(in.Current.NotBefore) <= t && t <= tsTime(in.Current.NotAfter)
 //@   |   && tsTime(in.Next.NotBefore) < t && t < tsTime(in.Next.NotAfter) ==> onlyNext(ret) && ret1 == in.Next
 
 // sameRoot(a, b): the two root records are the same root (key and certificate, validity window)
